@@ -29,11 +29,11 @@ def trace_key(t):
     return (type(t).__name__, text, tuple((e.tid, e.debugid, e.data) for e in t.ktraces))
 
 
-def run_stream(items):
+def run_stream(items, step=7):
     """items: [(tid, abstract event)].  Returns ({tid: [trace keys]}, pids_names, exception)."""
     parser = ev.new_parser()
     per = {}
-    for e in H.materialize(items):
+    for e in H.materialize(items, step=step):
         try:
             t = parser.feed(e)
             if t is not None:
@@ -43,13 +43,13 @@ def run_stream(items):
     return per, dict(parser.pids_names), None
 
 
-def run_stream_via_file(items, kind, rng):
+def run_stream_via_file(items, kind, rng, step=7):
     """The same merged stream written into a dump (empty thread map, records split over chunks for version 3) and read
     by the public front end."""
     import io
     from vlib import wire, gen
     from pykdebugparser.pykdebugparser import PyKdebugParser
-    events = H.materialize(items)
+    events = H.materialize(items, step=step)
     records = gen.events_to_records(events)
     data = wire.v2_file([], 8, records) if kind == 'v2' else \
         wire.V3Spec(entries=[], chunks=gen.split_chunks(rng, records, rng.choice((1, 2, 3, 5)))).build()
@@ -145,8 +145,13 @@ def split_every_pair(programs):
 
 def check_set(res, ctx, rng, programs, tids, n_random=None):
     baselines, base_names = {}, {}
+    # the time base is coarse: in a third of the sets every record of the capture carries the same timestamp (then any
+    # interleaving is a legal merge of the per-CPU buffers); the same timestamps are used for the baselines
+    step = 0 if rng.random() < 0.33 else 7
+    if step == 0:
+        res.count('program_sets_on_one_tick')
     for p, tid in zip(programs, tids):
-        per, names, exc = run_stream(H.on_thread(tid, p))
+        per, names, exc = run_stream(H.on_thread(tid, p), step)
         if exc is not None:
             res.violation(f'c05-baseline-raises-{core.exc_name(exc)}', f'program of thread {tid} alone raised {exc!r}',
                           {'programs': programs_case(programs, tids)})
@@ -182,10 +187,10 @@ def check_set(res, ctx, rng, programs, tids, n_random=None):
         via = None
         if (n_sched % 9 == 0 and len(items) < 400) or n_sched == 2:
             via = 'v3' if n_sched % 2 == 0 else 'v2'
-            per, names, exc = run_stream_via_file(items, via, rng)
+            per, names, exc = run_stream_via_file(items, via, rng, step)
             res.count('schedules_through_a_dump')
         else:
-            per, names, exc = run_stream(items)
+            per, names, exc = run_stream(items, step)
         case = {'programs': programs_case(programs, tids), 'order': [list(o) for o in order], 'via': via}
         if exc is not None:
             res.violation(f'c05-raises-{core.exc_name(exc)}', f'schedule raised {exc!r} although every program alone '
@@ -214,8 +219,6 @@ def programs_case(programs, tids):
 
 def run(ctx):
     res = core.Result()
-    import random
-    H.set_clock(random.Random(ctx.seed * 7919 + ctx.shard))      # coarse time base: records may share a tick
     rng = ctx.rng
     for i in range(ctx.pick(24, 2000)):
         programs, tids = gen_programs(rng, pairs_everywhere=(i % 2 == 0))
